@@ -71,12 +71,13 @@ Proof.
   - rewrite forallb_app, nocat_ckpt. reflexivity.
   - destruct (ever_dirty s); [| reflexivity].
     rewrite !forallb_app, nocat_flat by (intros; apply nocat_flush).
-    destruct (cur_fl s ++ buf s ++ map (fun k => (k, None)) (dirty s)); reflexivity.
+    destruct (cur_fl s ++ buf s ++ map (fun k => (k, None)) (dirty s)); [reflexivity |].
+    rewrite forallb_app, nocat_map by reflexivity. reflexivity.
 Qed.
 
 Definition create_prefix (t h r hi ri : Z) : list ev :=
-  [ECreate t; EStore t 0 h; EMsync t; EGrow t; EStore t 1 r; ECreate (idx_file t); EStore (idx_file t) 0 hi;
-   EMsync (idx_file t); EGrow (idx_file t); EStore (idx_file t) 1 ri].
+  [ECreate t; EStore t 0 h; EMsync t; EGrow t; EStore t 1 r; EMsync t; ECreate (idx_file t); EStore (idx_file t) 0 hi;
+   EMsync (idx_file t); EGrow (idx_file t); EStore (idx_file t) 1 ri; EMsync (idx_file t)].
 Lemma create_events : forall s t h r hi ri,
   events s (OCreate t h r hi ri) = create_prefix t h r hi ri ++ EAddTab t :: cat_save ++ [EMetaW; EMetaSync; EAck].
 Proof. reflexivity. Qed.
